@@ -1,0 +1,56 @@
+//! Observation hooks for external verification harnesses.
+//!
+//! Only compiled with the `verif-hooks` cargo feature. With no hook installed (the default) every
+//! call is a no-op, so enabling the feature alone does not change behaviour.
+
+use core::sync::atomic::{AtomicUsize, Ordering};
+
+/// A busy-wait loop in which a driver waits for the device.
+#[derive(Copy, Clone, Debug, Eq, PartialEq)]
+pub enum SpinSite {
+    /// `VirtQueue::add_notify_wait_pop`.
+    QueueAddNotifyWaitPop,
+    /// `VirtIONetRaw::receive_wait`.
+    NetReceiveWait,
+    /// `VirtIOSound::pcm_xfer`.
+    SoundPcmXfer,
+    /// `VirtIOConsole::wait_for_receive`.
+    ConsoleWaitForReceive,
+    /// `VsockConnectionManager::wait_for_event`.
+    VsockWaitForEvent,
+}
+
+/// A point at which the hook is called.
+#[derive(Copy, Clone, Debug, Eq, PartialEq)]
+pub enum Point {
+    /// The descriptor with the given index was just copied to the device-visible table.
+    DescWritten(u16),
+    /// A slot of the available ring was just written.
+    AvailRingWritten,
+    /// The available index was just written.
+    AvailIdxWritten,
+    /// The available ring flags were just written.
+    AvailFlagsWritten,
+    /// The `used_event` field was just written.
+    UsedEventWritten,
+    /// One iteration of a busy-wait loop is about to start.
+    Spin(SpinSite),
+}
+
+static HOOK: AtomicUsize = AtomicUsize::new(0);
+
+/// Installs `hook`, to be called at every [`Point`] from then on.
+pub fn set(hook: fn(Point)) {
+    HOOK.store(hook as usize, Ordering::SeqCst);
+}
+
+/// Calls the installed hook, if any.
+#[inline]
+pub(crate) fn fire(point: Point) {
+    let hook = HOOK.load(Ordering::SeqCst);
+    if hook != 0 {
+        // SAFETY: The only non-zero values ever stored in `HOOK` are `fn(Point)` pointers.
+        let hook: fn(Point) = unsafe { core::mem::transmute(hook) };
+        hook(point);
+    }
+}
